@@ -125,8 +125,27 @@ def session(pa, rng, length, max_obj=5):
                 emit({"op": "drop", "args": [o], "out": "ok"})
             continue
         if op == "mutate":
-            kind = rng.choice(["add_new_label", "add_annotator", "remove", "reset_bounds", "add"])
+            kind = rng.choice(["add_new_label", "add_annotator", "remove", "reset_bounds", "add", "merge_in_place", "merge_in_place"])
             e = {"out": "ok"}
+            if kind == "merge_in_place":
+                # merge another live continuum into this one, then change the OTHER one for one of its annotators:
+                # the two must stay independent
+                o2 = rng.choice(live)
+                c.merge(objs[o2], in_place=True)
+                emit({"op": "merge_in_place", "args": [o, o2], "out": "ok"})
+                src = objs[o2]
+                pool = [(a, u) for a, u in src]
+                if pool and o2 != o:
+                    a, u = rng.choice(pool)
+                    if rng.random() < 0.5:
+                        src.remove(a, u)
+                        emit({"op": "remove", "args": [o2, a, float(u.segment.start), float(u.segment.end), u.annotation], "out": "ok"})
+                    else:
+                        label_counter[0] += 1
+                        s0 = float(rng.randint(40, 60))
+                        src.add(a, Segment(s0, s0 + 1.0), f"new{label_counter[0]}")
+                        emit({"op": "add", "args": [o2, a, s0, s0 + 1.0, f"new{label_counter[0]}"], "out": "ok"})
+                continue
             try:
                 if kind == "add_new_label":
                     label_counter[0] += 1
@@ -243,6 +262,17 @@ def session(pa, rng, length, max_obj=5):
             n = fr[0]
             objs[n] = new
             emit({"op": "derive", "args": [n], "out": "ok", "kind": kind})
+            if kind == "merge_new" and rng.random() < 0.7:
+                # change one of the operands right away, for an annotator it has: the merged continuum must not move
+                src_id = rng.choice(live)
+                src = objs[src_id]
+                pool = [(a, u) for a, u in src]
+                if pool:
+                    a, u = rng.choice(pool)
+                    label_counter[0] += 1
+                    s0 = float(rng.randint(40, 60))
+                    src.add(a, Segment(s0, s0 + 1.0), f"new{label_counter[0]}")
+                    emit({"op": "add", "args": [src_id, a, s0, s0 + 1.0, f"new{label_counter[0]}"], "out": "ok"})
     return events
 
 
@@ -257,7 +287,7 @@ def run(tier, rep):
     c13.l1(rep, 4, c13.UNIV_A)
     c13.l2(rep, pa, 3 if quick else 4, c13.UNIV_A, concretes=c13.CONCRETE[:1])
     traces = []
-    n = 30 if quick else 500
+    n = 45 if quick else 600
     for _ in range(n):
         traces.append(session(pa, rng, 25 if quick else 40))
     for i in range(0, len(traces), 150):
